@@ -86,6 +86,12 @@ class Program:
             return "<b>h%d</b>\n" % k
         if lex == "NUMSTR":
             return str(k)
+        if lex == "NUMSTR_HEX":
+            return r.choice(["0x%X", "0x%x"]) % (k + 10)      # "0X.." is valid PHP but rejected by the scanner: see C03's literal table
+        if lex == "NUMSTR_BIN":
+            return "0b" + bin(k)[2:]
+        if lex == "IDXKEY":
+            return r.choice(["key%d", "K_%d", "x%d"]) % k
         if lex in ("HEREDOC_START", "HEREDOC_START_DQ", "NOWDOC_START"):
             lbl = r.choice(["EOT", "A", "Lbl_"]) + str(k)
             self.labels.append(lbl)
